@@ -273,8 +273,13 @@ class ParamikoTransport(Transport):
                 # went away underneath us; there is nothing to close gracefully in that case
                 self.logger.warning(f"encountered error closing the ssh channel: {exc}")
 
-            if self.socket:
-                self.socket.close()
+        if self.session:
+            # a failed open (host key, authentication, refused channel) leaves a session without a
+            # channel; the ssh session (and its thread) and the socket must be released regardless
+            self.session.close()
+
+        if self.socket:
+            self.socket.close()
 
         self.session = None
         self.session_channel = None
